@@ -212,7 +212,8 @@ def main(argv=None):
 
     # 2b. coverage-guided tier (thorough only): the same clause tests driven by atheris/libFuzzer
     atheris_info = {}
-    FUZZ = {"C05": ["programs"], "C07": ["transport", "limited"], "C08": ["history"]}
+    FUZZ = {"C05": ["programs"], "C07": ["transport", "limited", "after_history"], "C08": ["history"], "C09": ["hashtable"], "C14": ["cnt", "cache"],
+        "C15": ["setter_history", "rcrit"], "C17": ["bounds"], "C18": ["strength"]}
     if a.tier == "thorough" and prop in FUZZ and not a.clause and os.environ.get("VK_NOFUZZ") != "1":
         runs = int(float(os.environ.get("VK_FUZZ_RUNS", "40000")) * a.scale)
         procs = []
